@@ -183,7 +183,34 @@ func c04DefaultDeny(c *Ctx) {
 	} else {
 		for _, call := range calls5 {
 			a := call.Common().Args
-			ok := vFieldLoad("syncInfo.offset", nil)(a[1]) && vFieldLoad("Header.WALSalt1", nil)(a[3]) && vFieldLoad("Header.WALSalt2", nil)(a[4])
+			// the old cursor and both previous-generation salt words are handed over
+			// (positionally, or bundled in an array literal)
+			var leaves []ssa.Value
+			for _, x := range a[1:] {
+				leaves = append(leaves, x)
+				if u, isU := x.(*ssa.UnOp); isU {
+					if al, isA := u.X.(*ssa.Alloc); isA {
+						for _, r := range *al.Referrers() {
+							if ia, isIA := r.(*ssa.IndexAddr); isIA {
+								for _, rr := range *ia.Referrers() {
+									if st, isSt := rr.(*ssa.Store); isSt && st.Addr == ssa.Value(ia) {
+										leaves = append(leaves, st.Val)
+									}
+								}
+							}
+						}
+					}
+				}
+			}
+			has := func(m VM) bool {
+				for _, l := range leaves {
+					if m(l) {
+						return true
+					}
+				}
+				return false
+			}
+			ok := has(vFieldLoad("syncInfo.offset", nil)) && has(vFieldLoad("Header.WALSalt1", nil)) && has(vFieldLoad("Header.WALSalt2", nil))
 			// the offset must still be the old cursor: no store of WALHeaderSize to info.offset dominates the call
 			for _, st := range storesToField(fn, "syncInfo.offset") {
 				if vConstInt(32)(st.Val) && dominates(st, call) {
@@ -218,7 +245,7 @@ func c04DefaultDeny(c *Ctx) {
 			for _, rd := range callsTo(h, nameIs("ls.readWALFileAt")) {
 				c.check(vParam("offset")(rd.Common().Args[1]), rule5, fnName(h)+": reads the frame header at the given offset", c.pos(rd), "offset parameter", "reads elsewhere")
 			}
-			c.floor(rule5, len(factEdges(h, cmpFact(vCallResult(nameHasSuffix(".Size")), token.LSS, vBinOp(token.ADD, vParam("offset"), vParam("frameSize"), true), ""))), 1, "bounds check (no frame at the cursor)")
+			c.floor(rule5, len(factEdges(h, cmpFact(vCallResult(nameHasSuffix(".Size")), token.LSS, vBinOp(token.ADD, vParam("offset"), vAny(), true), ""))), 1, "bounds check (no frame at the cursor)")
 		}
 	}
 }
